@@ -316,6 +316,32 @@ def run(tier, seed, pid=PID):
             nontriv.add((mode, kind, prior, nruns))
             if len(samples) < 3:
                 samples.append({"mode": mode, "kind": kind, "prior": prior, "case": cases[-1], "observed": observed[-1]})
+        if pid == "C02":
+            # (6bd7769) a source symlink that carries the NAME of a working file (<big>.sy.tmp) and points back into the source tree /
+            # to the sentinel outside: preserved by run 1; run 2 updates <big> (at the gate: working file + rename) -- nothing of the
+            # source or the sentinel may change
+            env_old = dict(sc.env); sc.env["SY_VERIF_DELTA_THRESHOLD"] = "65536"
+            for wi in range(2 if tier == "quick" else 8):
+                base = os.path.join(sc.dir, "wn%d" % wi)
+                src, dst, out = base + "/src", base + "/dst", base + "/out"
+                os.makedirs(src + "/sub"); os.makedirs(dst); os.makedirs(out)
+                open(src + "/other.txt", "w").write("a file of the source"); open(out + "/sentinel.txt", "w").write("outside both roots")
+                bigp = src + ("/big.bin" if wi % 2 == 0 else "/sub/big.bin")
+                with open(bigp, "wb") as fh:
+                    fh.write(world.pbytes(6100 + wi, 200000))
+                os.utime(bigp, ns=((world.T0 + 100) * 10**9,) * 2)
+                os.symlink(src + "/other.txt" if wi % 4 < 2 else out + "/sentinel.txt", bigp + ".sy.tmp")
+                world.run_sy([src, dst, "-q", "-j1"], sc)
+                with open(bigp, "wb") as fh:
+                    fh.write(world.pbytes(6200 + wi, 210000))
+                os.utime(bigp, ns=((world.T0 + 900) * 10**9,) * 2)
+                b_src, b_out = world.snapshot(src), world.snapshot(out)
+                rr = world.run_sy([src, dst, "-q", "-j%d" % [1, 4][wi % 2]], sc)
+                ch = [("src", p) for p in world.diff_snap(b_src, world.snapshot(src))] + [("outside", p) for p in world.diff_snap(b_out, world.snapshot(out))]
+                if ch:
+                    viol.append({"world": "working-name-link-%d" % wi, "why": "a symbolic link named like the working file of a large destination (%s.sy.tmp): the update of that file modified %r" % (os.path.basename(bigp), ch[:4]), "prop": "C02"})
+                shutil.rmtree(base, ignore_errors=True)
+            sc.env.clear(); sc.env.update(env_old)
         xa_cases, xa_obs, xa_stats = [], [], {}
         if pid == "C17":
             xa_cases, xa_obs, xa_viol, xa_stats = xattr_histories(sc, vlib.rng_for(seed, "C17-xattr"), 40 if tier == "quick" else 500)
